@@ -1350,6 +1350,16 @@ def _check_wrapper_one(case, rec):
             f"store={store!r}: field stored under '{name}' differs from the returned result",
             dict(tags, kind="store"),
         )
+    # the source field stays what it was unless the result was stored under its name: a second transformation
+    # taken from it must start from the same values
+    if not (store is True or store == case["src"]) and case["src"] in fld.field_names:
+        src_now = np.asarray(fld[case["src"]])
+        require(
+            src_now.shape == np.shape(stored0) and np.array_equal(src_now, np.asarray(stored0), equal_nan=True),
+            f"{alias} via {case['entry']} (process={process}, store={store!r}): the source field '{case['src']}' changed "
+            f"(max {float(np.nanmax(np.abs(src_now - np.asarray(stored0)))):.3g}); further transformations of it miss their documented target",
+            dict(tags, kind="source_modified"),
+        )
 
 
 # ---------------------------------------------------------------------------
